@@ -146,7 +146,7 @@ def _filler_type(t):
     return found
 
 
-def aim(typ, nitems, wanted, tries=3000):
+def aim(typ, nitems, wanted, tries=800):
     """Find a free block at one of the addresses in `wanted` that an instance of `typ` (with
     `nitems` items if typ is a tuple subclass) can be allocated in.  Returns (address or
     None, held): the filler occupying the block is held[-1]; the caller executes
